@@ -142,7 +142,7 @@ def flow_oracle(c, expected, zone):
 
 def run(ctx):
     out, metas = GC.run_targets(
-        ctx, PID, make_targets, 60, 1500,
+        ctx, PID, make_targets, 60, 700,
         rule=('random model programs from harness/gen_common.ProgGen.any(): single economy / 2-3 regions sharing a '
               'currency / 2-3 currency zones with ExternalSector (cross-zone gifts, imports, non-unit time-varying '
               'XR paths) / gold standard; consolidated or treasury+central-bank government, 1-2 households (incl. '
